@@ -217,6 +217,10 @@ def ncomp_from_gmm(vals: np.ndarray,
     # Rescale the data if warranted
     if rescale_0_to_x is not None:
         vals = minmax_scale(vals) * rescale_0_to_x
+    else:
+        # No rescaling ... but still shift the data towards 0: Gaussian mixtures do not depend on
+        # the origin, and large offsets make the variance of tight components numerically ill-defined.
+        vals = vals - np.min(vals)
 
     # List all the number of components I should try
     ncomp = np.linspace(1, ncomp_max, ncomp_max, dtype=int)
